@@ -26,11 +26,13 @@ def build_data_element(d: Dict):
 
 
 def build_segment(s: Dict) -> Segment:
-    return Segment(discriminator=s["d"], ahb_expression=expr_string(s["x"]), data_elements=[build_data_element(d) for d in s["des"]], section_name="sec-" + s["d"])
+    return Segment(discriminator=s["d"], ahb_expression=expr_string(s["x"]), data_elements=[build_data_element(d) for d in s["des"]], section_name="sec-" + s["d"], ahb_line_index=s.get("line"))
 
 
 def build_group(g: Dict) -> SegmentGroup:
-    return SegmentGroup(discriminator=g["d"], ahb_expression=expr_string(g["x"]), segments=[build_segment(s) for s in g["segs"]], segment_groups=[build_group(x) for x in g["grps"]])
+    return SegmentGroup(
+        discriminator=g["d"], ahb_expression=expr_string(g["x"]), segments=[build_segment(s) for s in g["segs"]], segment_groups=[build_group(x) for x in g["grps"]], ahb_line_index=g.get("line")
+    )
 
 
 def build(spec: List[Dict]) -> DeepAnwendungshandbuch:
